@@ -102,6 +102,9 @@ func TestVF(t *testing.T) {
 			plan := prof.Gen(pcg(seed), job.Tier)
 			plan.Prop, plan.Seed = job.Prop, seed
 			res := vfRunPlan(t, plan, i < job.Samples)
+			if i == 0 {
+				res.Rule = prof.Rule
+			}
 			var own []vfViolation
 			for _, v := range res.Violations {
 				if v.Prop == job.Prop {
